@@ -710,6 +710,9 @@ impl<'tcx> Cx<'tcx> {
         if matches!(tcx.def_kind(root), DefKind::Fn | DefKind::AssocFn) {
             o.s("vis", &format!("{:?}", tcx.visibility(root)));
         }
+        if matches!(tcx.def_kind(def_id), DefKind::Fn | DefKind::AssocFn | DefKind::Closure) {
+            o.b("tc", tcx.codegen_fn_attrs(def_id).flags.contains(rustc_middle::middle::codegen_fn_attrs::CodegenFnAttrFlags::TRACK_CALLER));
+        }
         o.n("argc", body.arg_count as i128);
         o.key("locals");
         jarr(o.out, body.local_decls.iter(), |out, d| jstr(out, &self.ty(d.ty)));
